@@ -99,6 +99,11 @@ func applySchema(data json.RawMessage, resolved *jsonschema.Resolved, forOutput 
 				return nil, fmt.Errorf("unmarshaling arguments: %w", err)
 			}
 		}
+		if v == nil {
+			// JSON null leaves a nil map behind: treat it like absent arguments,
+			// so that applying defaults has a map to write to.
+			v = make(map[string]any)
+		}
 		unmarshaled = v
 	} else {
 		if len(data) > 0 {
